@@ -31,6 +31,7 @@ namespace
     std::vector<long long> vkeys, pkeys;
     std::vector<double> s0v, s0p, s1v, s1p, fv, fp, axv, axp;
     std::vector<double> slipv;   // a consistent velocity vector after the synchronised slip filter (whole boundary)
+    std::vector<double> mf_sol, mf_rhs;   // pressure mean filter applied to consistent vectors
     std::vector<double> t3_s0v, t3_s0p, t3_s0q;   // sync_0 on a three-component tuple (velocity, pressure, pressure-like third field)
     std::vector<double> vcoord;  // velocity DOF coordinates (diagnostics)
     double dot = 0, norm2 = 0;
@@ -160,6 +161,18 @@ namespace
       for(Index d = 0; d < nv; ++d) { out.t3_s0v.push_back(w0.template at<0>()(d)[0]); out.t3_s0v.push_back(w0.template at<0>()(d)[1]); out.t3_s0q.push_back(w0.template at<2>()(d)[0]); out.t3_s0q.push_back(w0.template at<2>()(d)[1]); }
       for(Index d = 0; d < np; ++d) out.t3_s0p.push_back(w0.template at<1>()(d));
     }
+    {
+      // pressure mean filter as the Stokes system level with unit velocity / mean pressure filters assembles it (its own code,
+      // not Asm::asm_mean_filter): applied to consistent pressure vectors, against the undecomposed filter
+      Control::StokesBlockedUnitVeloMeanPresSystemLevel<2, double, Index> sysm;
+      sysm.assemble_gates(domain.front());
+      sysm.assemble_pressure_mean_filter(lvl.space_pres, cubature);
+      SystemLevelType::LocalPresVector ps(np), pr(np);
+      for(Index d = 0; d < np; ++d) { ps(d, g_val(out.pkeys[d], 31, 7)); pr(d, g_val(out.pkeys[d], 32, 7)); }
+      sysm.filter_pres.local().filter_sol(ps);
+      sysm.filter_pres.local().filter_rhs(pr);
+      for(Index d = 0; d < np; ++d) { out.mf_sol.push_back(ps(d)); out.mf_rhs.push_back(pr(d)); }
+    }
     GlobalSystemVector gx = sys.matrix_sys.create_vector_r(), gy = sys.matrix_sys.create_vector_r(), gr = sys.matrix_sys.create_vector_l();
     for(Index d = 0; d < nv; ++d)
     {
@@ -191,6 +204,9 @@ namespace
     double sav = 1e-300, sap = 1e-300;
     for(double x : B.axv) sav = std::max(sav, std::abs(x));
     for(double x : B.axp) sap = std::max(sap, std::abs(x));
+    double smf = 1e-300, smr = 1e-300;
+    for(double x : B.mf_sol) smf = std::max(smf, std::abs(x));
+    for(double x : B.mf_rhs) smr = std::max(smr, std::abs(x));
     if(sv.size() != bv.size() || sp.size() != bp.size()) sim::fail("DOF_COVER", "the patches do not hold exactly the DOFs of the one-process discretisation");
     for(const RankOut& r : A)
     {
@@ -232,6 +248,8 @@ namespace
         if(!close(r.fp[d], 1.0 / double(S.size()), 1e-15, 1.0)) sim::fail("GATE_FREQS", "wrong pressure frequency in the system gate");
         ++CNT.matvec;
         if(!close(r.axp[d], B.axp[it->second], 1e-12, sap)) sim::fail("MATVEC", "saddle-point product, pressure part, differs from the one-process product");
+        if(!close(r.mf_sol[d], B.mf_sol[it->second], 1e-11, smf) || !close(r.mf_rhs[d], B.mf_rhs[it->second], 1e-11, smr))
+          sim::fail("MEAN_FILTER", "pressure mean filter of the Stokes system level applied to a consistent vector differs from the undecomposed filter: " + std::to_string(r.mf_sol[d]) + " / " + std::to_string(r.mf_rhs[d]) + " vs " + std::to_string(B.mf_sol[it->second]) + " / " + std::to_string(B.mf_rhs[it->second]));
       }
     }
   }
